@@ -61,3 +61,9 @@ MUTANTS += [
      [(GSF, "        x, y, cx, cy = self._child_extents\n", "        cx, cy, x, y = self._child_extents\n")],
      "R17.2 CT_GroupShape.recalculate_extents"),
 ]
+
+MUTANTS += [
+    ("child-extents-skip-zero-extent-members", "members with a zero width or height are left out of the group's bounding box",
+     [(GSF, "        child_shape_elms = list(self.iter_shape_elms())\n", "        child_shape_elms = [xSp for xSp in self.iter_shape_elms() if xSp.cx and xSp.cy]\n")],
+     "R17.2 CT_GroupShape._child_extents"),
+]
